@@ -22,7 +22,9 @@ EXTRA = [{}, {"kid": "stored-1"}, {"use": "sig"}, {"use": "enc", "alg": "ECDH-ES
          {"x5t": "dGh1bWJwcmludC1zaGEx"}, {"x5t#S256": "dGh1bWJwcmludC1zaGEyNTYtb2YtdGhlLWNlcnQ", "x5c": ["MIIB"]},
          {"x5u": "https://ca.example/cert.pem", "x5t": "eDV0", "alg": "ES256"},
          # members no registry knows (WebCrypto's ext, OpenID Federation's iat / exp, a private extension)
-         {"ext": True}, {"iat": 1700000000, "exp": 1800000000}, {"https://example.com/jwk-ext": {"a": [1, 2]}, "use": "sig"}]
+         {"ext": True}, {"iat": 1700000000, "exp": 1800000000}, {"https://example.com/jwk-ext": {"a": [1, 2]}, "use": "sig"},
+         # the algorithm a key is meant for (any strength) says nothing about how the key is named or hashed
+         {"alg": "HS512"}, {"alg": "PS384", "use": "sig"}, {"alg": "ES512", "kid": "es512-key"}, {"alg": "RSA-OAEP-512"}, {"alg": "A256GCMKW"}]
 
 
 def gen_material(rng: Rng, kind, rare=None) -> RKey:
@@ -57,6 +59,25 @@ def provision(key: RKey, how: str, params: dict | None = None):
         d = rk.to_jwk(key, True)
         d.update(params or {})
         return JWKRegistry.import_key(d)
+    if how in ("jwk-sorted", "jwk-reversed", "jwk-interleaved"):
+        # member order is the writer's business: alphabetical (json.dumps(sort_keys=True), jwcrypto), reversed, or with the
+        # descriptive members between the private ones
+        d = rk.to_jwk(key, True)
+        d.update(params or {})
+        d.setdefault("kid", "ordered-key")
+        items = sorted(d.items())
+        if how == "jwk-reversed":
+            items.reverse()
+        elif how == "jwk-interleaved":
+            priv = [it for it in items if it[0] in ("d", "p", "q", "dp", "dq", "qi", "k")]
+            rest = [it for it in items if it not in priv]
+            items = []
+            while priv or rest:
+                if priv:
+                    items.append(priv.pop(0))
+                if rest:
+                    items.append(rest.pop(0))
+        return JWKRegistry.import_key(dict(items))
     if how == "jwk-d-only":
         # RFC 7518 6.3.2: a private RSA JWK may carry d without the CRT members
         d = {k: v for k, v in rk.to_jwk(key, True).items() if k not in CRT}
